@@ -608,11 +608,9 @@ Definition sd_started (s : sd_sys) : bool :=
 Definition sd_both_closed (s : sd_sys) : bool :=
   (sd_state (sd_a s) =? c_closed) && (sd_state (sd_b s) =? c_closed) && sd_down (sd_a s) && sd_down (sd_b s).
 
-(* goal of the rank computation: both closed — or no shutdown was started (nothing to show) *)
-Definition sd_goal (s : sd_sys) : bool := sd_both_closed s || negb (sd_started s).
-
+(* ranks: distance to "both closed" (states in which no shutdown was started need not have one) *)
 Definition sd_rank_map (c : sd_cfg) : sd_rmap sd_sys :=
-  sd_rank_compute sd_sys sd_sys_eqb sd_key sd_goal sd_lsuccs 200 (sd_selems sd_sys (sd_reach_set c)).
+  sd_rank_compute sd_sys sd_sys_eqb sd_key sd_both_closed sd_lsuccs 200 (sd_selems sd_sys (sd_reach_set c)).
 
 (* safety predicates evaluated on every reachable state / transition *)
 
